@@ -614,7 +614,9 @@ func (ip *Interp) eval(e *Expr, pos int, env map[string]any) (ok bool, end int, 
 	if ip.evals > ip.O.MaxEval {
 		panic(&refPanic{kind: "budget"})
 	}
-	useMemo := ip.O.Quirks[QMemo] || ip.O.Quirks[QMemoRebind]
+	// (labeled expressions are never answered from the table: they bind their
+	// label in the current scope)
+	useMemo := (ip.O.Quirks[QMemo] || ip.O.Quirks[QMemoRebind]) && e.K != KLabel
 	if useMemo {
 		if ip.memo == nil {
 			ip.memo = map[memoKey]memoVal{}
